@@ -378,7 +378,7 @@ def slice_of(t, base_pred):
     return None
 
 
-def r_tile(ctx):
+def r_tile(ctx, step_only=False):
     run = ctx.run
     run.rule('R-TILE', "in the error arm of repair_dna's scan (E = cursor, k = observed length) the affine forms of "
                        "trim, chunk, look-back marker, resume k-mer, seed and step tile the strand: T1 E - trim = chunk.lo; "
@@ -400,6 +400,7 @@ def r_tile(ctx):
     strand = ('v', 'dna_sequence', 'P')
     state = steps[0].d.name
     err = None
+    err_all = []
     for p, k in ctx.body_paths(f, scan):
         if k != 'back':
             continue
@@ -413,8 +414,11 @@ def r_tile(ctx):
                            inputs='strands that drive that path of the error arm')
                 continue
             err = (p, events)
+            err_all.append((p, events))
     if err is None:
         raise AnalysisError("rule R-TILE lost its anchor: error arm (resynchronisation from the strand) not found")
+    # the roles are read from the path that records the most; T7 then compares every other path with it
+    err = max(err_all, key=lambda pe: sum(1 for e in pe[1] if e.kind == 'append'))
     p, events = err
     line = f.nodes[p[0]].lineno
     A = {}
@@ -455,6 +459,29 @@ def r_tile(ctx):
     missing = [n for n in need if n not in A or A[n] is None]
     if missing:
         raise AnalysisError("rule R-TILE lost its anchor: roles %s not found in the error arm" % missing)
+    # T7: the three records of an error site are appended in step.  segments has one more item than the two job lists,
+    # and the assembly addresses fragments[i] next to segments[i]: a path that appends to one list and not to another
+    # leaves them out of step for the rest of the scan.
+    coupled = [A.get('segments'), A.get('marker_list'), A.get('chunk_list')]
+    if all(coupled) and len(set(coupled)) == 3:
+        for p_, ev_ in err_all:
+            other = [e for e in ev_ if e.kind in ('store', 'aug', 'call') and getattr(e, 'name', None) in coupled[1:]]
+            counts = [sum(1 for e in ev_ if e.kind == 'append' and e.name == n) for n in coupled]
+            if other:
+                run.undecided('R-TILE', f, 'T7:records-in-step', f.nodes[p_[0]].lineno,
+                              'the job lists are also changed by %s' % other[0].kind)
+            elif len(set(counts)) != 1:
+                run.refute('R-TILE', f, 'T7:records-in-step', f.nodes[p_[-1]].lineno,
+                           'a path through the error arm appends %s: the segment list and the job lists fall out of step, and the '
+                           'assembly indexes the fragments of a site that was never queued (IndexError) or pairs segments with '
+                           'the fragments of another site' % ', '.join('%d to `%s`' % (c, n) for c, n in zip(counts, coupled)),
+                           inputs='strands with an error on that path (for a conditional on the look-back marker: an error inside '
+                                  'the first window)')
+            else:
+                run.ok('R-TILE', f, 'T7:records-in-step', f.nodes[p_[0]].lineno,
+                       'segment, marker and chunk are appended %d time(s) each on this path' % counts[0])
+    if step_only:
+        return
     Ea = {E: 1}
     ka = {K_SYM: 1}
 
